@@ -165,7 +165,9 @@ class NMEA2000Decoder():
             logger.debug("All Fast packet frames collected for PGN: %d", pgn)
 
             # All data for this PGN has been received, proceed to publish
-            combined_payload = bytes([b for idx in sorted(fast_pgn.frames) for b in fast_pgn.frames[idx][::-1]])[::-1]
+            # frames are stored byte-reversed: rebuild wire order, drop padding beyond the announced length
+            wire_payload = bytes([b for idx in sorted(fast_pgn.frames) for b in fast_pgn.frames[idx][::-1]])
+            combined_payload = wire_payload[:fast_pgn.payload_length][::-1]
             
             nmea = None
             if combined_payload is not None:
